@@ -113,6 +113,11 @@ def runOp1 (op : String) (a : List String) : Option String :=
     some (cmpStr (Card.lt x y) (x == y))
   | "u64_of_card" => some (toString (u64OfCard (Card.ofCode (n 0))))
   | "card_of_u64" => some (showRes (fun c => toString c.code) (cardOfU64 (n 0)))
+  | "card_bits_rt" =>
+    let c := Card.ofCode (n 0)
+    let bits := u64OfCard c
+    let shared := (List.range 52).filter fun d => d != n 0 && u64OfCard (Card.ofCode d) == bits
+    some (showRes (fun b => s!"{b.code} distinct={if shared.isEmpty then 1 else 0}") (cardOfU64 bits))
   | "show_card" => some (hex (showCard (Card.ofCode (n 0))))
   | "show_rank" => some (hex [rankChar (n 0)])
   | "show_suit" => some (hex [suitChar (n 0)])
@@ -174,11 +179,15 @@ def specOp1 (op : String) (a : List String) : Option String :=
   | "suit_cmp" => some ("=" ++ cmpStr (n 0 < n 1) (n 0 == n 1))
   | "card_cmp" => some ("=" ++ cmpStr (n 0 < n 1) (n 0 == n 1))
   | "u64_of_card" => some "pow2<52"
+  | "card_bits_rt" => some s!"=ok {n 0} distinct=1"
   | "show_card" => some s!"={hex (Spec.cardText (n 0))}"
   | "parse_card" =>
     let t := unhex (a.getD 0 "-")
     -- C13 fixes the answer for ASCII texts of length ≤ 2 only
-    if t.length ≤ 2 && t.all (· < 128) then some (optS (Spec.cardOfText t)) else none
+    if t.length ≤ 2 && t.all (· < 128) then some (optS (Spec.cardOfText t)) else some "all:[C09]nopanic"
+  -- C09: the rank and suit parsers return normally on every string (their value is compared with the model's)
+  | "parse_rank" => some "all:[C09]nopanic"
+  | "parse_suit" => some "all:[C09]nopanic"
   | "rank_range" => if n 0 ≤ n 1 then some ("=" ++ showRes showNats (.ok (Spec.run (n 0) (n 1) (n 2 == 1)))) else none
   | "suit_range" => if n 0 ≤ n 1 then some ("=" ++ showRes showNats (.ok (Spec.run (n 0) (n 1) (n 2 == 1)))) else none
   | "rank_all" => some ("=" ++ showRes showNats (.ok (List.range 13)))
@@ -194,9 +203,9 @@ def specOp1 (op : String) (a : List String) : Option String :=
     match t with
     | [a1, a2, b1, b2] =>
       match Spec.cardOfText [a1, a2], Spec.cardOfText [b1, b2] with
-      | some x, some y => if x == y then none else some s!"=ok {52 * min x y + max x y}"
-      | _, _ => none
-    | _ => none
+      | some x, some y => if x == y then some "all:[C09]nopanic" else some s!"=ok {52 * min x y + max x y}"
+      | _, _ => some "all:[C09]nopanic"
+    | _ => some "all:[C09]nopanic"
   | "cmp7" =>
     -- the hand whose best five cards are stronger under the rule book compares as smaller; equal strength = tie
     let cs := a.map (fun t => (t.toNat! / 4, t.toNat! % 4))
